@@ -957,6 +957,11 @@ def call_method(interp, recv, name, args, kwargs):
     if name == 'splitlines' and (list(args) == [True] or (not args and kwargs == {'keepends': True})):
         from . import textio
         return textio.splitlines_keepends(interp, recv)
+    if name in ('splitlines',) and not args and not kwargs and interp.st.ghost.get('__weak_splitlines__'):
+        # opt-in of a sidecar module (`M.weak_splitlines = True`): s.splitlines() is SOME list of strings
+        # (weak but sound; for code that only passes the lines on, e.g. into a source-location record)
+        from .api import ListOf, Str as _Str
+        return ListOf(_Str).make(interp, 'splitlines')
     if name in ('splitlines',):
         raise Unsupported('str.splitlines on symbolic string (give the function a contract / model)')
     if name in ('removeprefix', 'removesuffix'):
